@@ -9,8 +9,14 @@ NAMES="$@"; [ -z "$NAMES" ] && NAMES=$(ls seeded | sort -t- -k1,1 -k2,2n)
 for N in $NAMES; do
   P=${N%%-*}
   HOW=git-apply
-  if ! git -C /repo apply seeded/$N/patch.diff 2>/dev/null; then
-    if (cd /repo && patch -p1 -F3 -s --no-backup-if-mismatch < /verif/seeded/$N/patch.diff >/dev/null 2>&1); then HOW=patch-F3
+  PATCH=/verif/seeded/$N/patch.diff
+  # a seed written against an earlier /repo HEAD whose lines were since rewritten by fix: commits is
+  # kept as delivered; patch_head.diff is the same change ported by hand to the current HEAD
+  [ -f /verif/seeded/$N/patch_head.diff ] && PATCH=/verif/seeded/$N/patch_head.diff && HOW=git-apply-ported
+  if ! git -C /repo apply $PATCH 2>/dev/null; then
+    if (cd /repo && patch -p1 -F3 --no-backup-if-mismatch < $PATCH 2>&1 | grep -q "offset -\?[0-9][0-9]"); then
+      git -C /repo checkout -q -- .; git -C /repo clean -fdq; echo "$N $P applies-only-with-a-large-offset (wrong site): needs patch_head.diff"; continue
+    elif [ -n "$(git -C /repo status --porcelain)" ]; then HOW=patch-F3
     else git -C /repo checkout -q -- .; git -C /repo clean -fdq; echo "$N $P does-not-apply"; python3 - $N <<'PY'
 import json,sys
 f='/verif/seeded/%s/meta.json'%sys.argv[1]; m=json.load(open(f)); m['final_sweep']=dict(result='patch no longer applies to /repo HEAD (later fix: commits rewrote those lines); last evaluated result stands'); json.dump(m,open(f,'w'),indent=1)
